@@ -133,6 +133,38 @@ class TAbs(Ty):
         return self.name
 
 
+class TOpt(Ty):
+    """`Option<T>` (genfm): result of `seq.get(i)`, scrutinee of `if let Some(..)`, receiver of `.expect(..)`"""
+
+    def __init__(self, elem):
+        self.elem = elem
+
+    def lean(self):
+        return "Option " + paren_ty(self.elem.lean())
+
+    def __eq__(self, o):
+        return isinstance(o, TOpt) and o.elem == self.elem
+
+    def __repr__(self):
+        return "Option<%r>" % (self.elem,)
+
+
+class TEnum(Ty):
+    """an enum declared in the spec (`enums`): a Lean inductive emitted into the generated file (genfm)"""
+
+    def __init__(self, name):
+        self.name = name
+
+    def lean(self):
+        return self.name
+
+    def __eq__(self, o):
+        return isinstance(o, TEnum) and o.name == self.name
+
+    def __repr__(self):
+        return self.name
+
+
 def paren_ty(s):
     return "(%s)" % s if (" " in s) else s
 
@@ -255,6 +287,10 @@ class Parser:
                 args.append(self.type_())
                 if self.at(","):
                     self.next()
+                if self.at(">>"):
+                    # genfm: `Vec<Vec<usize>>`: the tokenizer read `>>`
+                    y = self.t[self.i]
+                    self.t[self.i:self.i + 1] = [Tok("op", ">", y.pos), Tok("op", ">", y.pos + 1)]
             self.expect(">")
         if self.at("::"):
             raise Unsupported("qualified type path `%s::…`" % nm.text, nm.pos)
@@ -366,6 +402,11 @@ class Parser:
             if self.at(";"):
                 self.next()
             return N("return", x.pos, e=e)
+        if x.kind == "id" and x.text == "break" and self.at(";", 1):
+            # genfm: plain `break;` (translated only as the last statement of `if c { …; break; }` in a `for` body)
+            self.next()
+            self.next()
+            return N("break", x.pos)
         if x.kind == "id" and x.text in ("loop", "match", "break", "continue", "unsafe", "fn", "use", "const", "static",
                                          "struct", "enum", "impl", "type", "mod", "trait", "async", "move"):
             raise Unsupported("`%s` is outside the translated subset" % x.text, x.pos)
@@ -383,8 +424,20 @@ class Parser:
     def if_(self):
         x = self.expect("if")
         if self.at("let"):
-            raise Unsupported("`if let`", x.pos)
-        c = self.expr(no_struct=True)
+            # genfm: `if let Some(pat) = e {..}` (only this shape); the condition node has kind `somepat`
+            self.next()
+            sm = self.next()
+            if not (sm.kind == "id" and sm.text == "Some" and self.at("(")):
+                raise Unsupported("`if let` other than `if let Some(x) = e`", x.pos)
+            self.next()
+            sp = self.pattern()
+            self.expect(")")
+            self.expect("=")
+            if sp.kind != "pid":
+                raise Unsupported("`if let Some(..)` with a nested pattern", x.pos)
+            c = N("somepat", x.pos, pat=sp, e=self.expr(no_struct=True))
+        else:
+            c = self.expr(no_struct=True)
         th = self.block()
         el = None
         if self.at("else"):
@@ -592,7 +645,7 @@ class Parser:
                 self.expect("}")
                 return N("struct", x.pos, name="::".join(path), fields=fields)
             if len(path) > 1:
-                raise Unsupported("path `%s` (only calls through `::` are translated)" % "::".join(path), x.pos)
+                return N("pathv", x.pos, path=path)       # genfm: an enum constructor declared in the spec, else refused
             return N("var", x.pos, name=x.text)
         raise Unsupported("unexpected `%s`" % x.text, x.pos)
 
@@ -740,6 +793,10 @@ class FnTranslator:
             return TBool()
         if nm == "Vec" and len(t.args) == 1:
             return TSeq(self.ty(t.args[0]))
+        if nm == "Option" and len(t.args) == 1:
+            return TOpt(self.ty(t.args[0]))
+        if nm in self.unit.get("enums", {}) and not t.args:
+            return TEnum(nm)
         if nm in self.generics and not t.args:
             return TAbs(nm, self.generics[nm])
         if nm in self.aliases and not t.args:
@@ -907,6 +964,8 @@ class FnTranslator:
                 return v.lean, v.ty
             self.err("field access `.%s` on something other than `self`" % e.name, e)
         if k == "index":
+            if e.idx.kind == "range" and self.spec.get("slice_values"):
+                return self.slice_value(e, code)
             if e.idx.kind == "range":
                 self.err("a sub-slice `v[a..b]` is only translated as the source of a `for` loop", e)
             b, bt = self.expr(e.base, code)
@@ -980,6 +1039,10 @@ class FnTranslator:
             return "(" + ", ".join(p[0] for p in parts) + ")", TTuple([p[1] for p in parts])
         if k == "if":
             return self.if_expr(e, code, expected)
+        if k == "pathv":
+            return self.enum_ctor(e, e.path, [], code)
+        if k == "somepat":
+            self.err("`if let` in this position (only as an `if` statement)", e)
         if k == "range":
             self.err("a range is only translated as the source of a `for` loop or as a slice bound there", e)
         if k == "str":
@@ -1067,6 +1130,73 @@ class FnTranslator:
             self.err("operator `%s`" % op, e)
         return t, lt
 
+    def slice_value(self, e, code):
+        """genfm: `&v[a..b]`, `&v[a..=b]`, `&v[..]` as a value (argument of an abstract function); functions whose spec
+        sets `slice_values`.  Bounds are checked as in Rust (`Rs.slice`, `Rs.sliceIncl`)."""
+        b, bt = self.expr(e.base, code)
+        if not isinstance(bt, TSeq):
+            self.err("slice of %r" % (bt,), e)
+        r = e.idx
+        if r.lo is None and r.hi is None:
+            return b, bt
+        lo = "0" if r.lo is None else self.expr(r.lo, code, TInt("usize"))[0]
+        if r.hi is None:
+            if r.incl:
+                self.err("`..=` without an upper bound", e)
+            hi = "%s.length" % atom(b)
+        else:
+            hi = self.expr(r.hi, code, TInt("usize"))[0]
+        t = self.tmp()
+        code.bind(t, ("call", "Rs.%s %s %s %s" % ("sliceIncl" if r.incl else "slice", atom(b), atom(lo), atom(hi))))
+        return t, bt
+
+    def enum_ctor(self, node, path, args, code):
+        """genfm: `Enum::Variant(args)` / `Enum::Variant` for an enum declared in the unit's `enums`"""
+        enums = self.unit.get("enums", {})
+        if len(path) != 2 or path[0] not in enums:
+            self.err("path `%s` (only calls through `::` and constructors of enums declared in the spec are translated)"
+                     % "::".join(path), node)
+        variants = dict(enums[path[0]]["variants"])
+        if path[1] not in variants:
+            self.err("`%s` is not a variant the spec lists for `%s`" % (path[1], path[0]), node)
+        want = variants[path[1]]
+        if len(want) != len(args):
+            self.err("`%s` with %d arguments, the spec says %d" % ("::".join(path), len(args), len(want)), node)
+        parts = []
+        for a, at in zip(args, want):
+            wt = self.ty_of_text(at)
+            s, t = self.expr(a, code, wt)
+            if t != wt:
+                self.err("argument of `%s` has type %r, the spec says %r" % ("::".join(path), t, wt), a)
+            parts.append(atom(s))
+        return "%s.%s%s" % (path[0], path[1], "".join(" " + q for q in parts)), TEnum(path[0])
+
+    def cond(self, c, code):
+        """genfm: condition of an `if` statement → (lean condition text, variables bound in the then-branch).
+        `if let Some(x) = e` becomes Lean's `if let some x := e then … else …`."""
+        if c.kind == "somepat":
+            s, t = self.expr(c.e, code)
+            if not isinstance(t, TOpt):
+                self.err("`if let Some(..)` on a value of type %r" % (t,), c)
+            v = Var(c.pat.name, self.fresh_lean(c.pat.name), t.elem, False)
+            return "let some %s := %s" % (v.lean, atom(s)), [v]
+        s, t = self.expr(c, code, TBool())
+        if not isinstance(t, TBool):
+            self.err("condition of type %r" % (t,), c)
+        return s, []
+
+    def has_kind(self, n, kind, into_loops=False):
+        """does the statement/expression tree `n` contain a node of the given kind (not looking into loops)?"""
+        if isinstance(n, N):
+            if n.kind == kind:
+                return True
+            if n.kind in ("for", "while") and not into_loops:
+                return False
+            return any(self.has_kind(v, kind, into_loops) for k, v in n.__dict__.items() if k not in ("kind", "pos"))
+        if isinstance(n, (list, tuple)):
+            return any(self.has_kind(x, kind, into_loops) for x in n)
+        return False
+
     def replicate(self, v, n, code, expected, node):
         el_exp = expected.elem if isinstance(expected, TSeq) else None
         vs, vt = self.expr(v, code, el_exp)
@@ -1103,7 +1233,41 @@ class FnTranslator:
             return "Rs.wrappingNeg %d %s" % (lt.w, atom(l)), lt
         if nm in ("borrow", "clone", "to_owned") and not e.args and nm == "borrow":
             return self.expr(e.recv, code, expected)
+        # ---- genfm: trait methods on `self` declared abstract in the spec, `seq.get(i)`, `opt.expect("..")`, `opt.unwrap()`
+        if e.recv.kind == "var" and e.recv.name == "self" and ("self." + nm) in self.absfns:
+            return self.abs_call("self." + nm, e.args, e, code)
+        if nm == "get" and len(e.args) == 1:
+            r, t = self.expr(e.recv, code)
+            if isinstance(t, TSeq):
+                i, it = self.expr(e.args[0], code, TInt("usize"))
+                if it != TInt("usize"):
+                    self.err("`.get` with an index of type %r" % (it,), e)
+                return "%s[%s]?" % (atom(r), i), TOpt(t.elem)
+            self.err("`.get(…)` on %r" % (t,), e)
+        if (nm == "expect" and len(e.args) == 1 and e.args[0].kind == "str") or (nm == "unwrap" and not e.args):
+            r, t = self.expr(e.recv, code)
+            if isinstance(t, TOpt):
+                tt = self.tmp()
+                code.bind(tt, ("call", "Rs.expect %s" % atom(r)))
+                return tt, t.elem
+            self.err("`.%s(…)` on %r" % (nm, t), e)
         self.err("method `.%s(…)` is outside the translated subset" % nm, e)
+
+    def abs_call(self, key, args, e, code):
+        """genfm: call of the abstract function `key` of the spec (same treatment as in `call`)"""
+        f = self.absfns[key]
+        if len(f["args"]) != len(args):
+            self.err("`%s` called with %d arguments, the spec says %d" % (key, len(args), len(f["args"])), e)
+        parts = []
+        for a, at in zip(args, f["args"]):
+            want = self.ty_of_text(at)
+            s, t = self.expr(a, code, want)
+            if t != want:
+                self.err("argument of `%s` has type %r, the spec says %r" % (key, t, want), a)
+            parts.append(atom(s))
+        if f["lean"] not in self.used_abs:
+            self.used_abs.append(f["lean"])
+        return (f["lean"] + "".join(" " + q for q in parts)), self.ty_of_text(f["ret"])
 
     def call(self, e, code, expected):
         path = "::".join(e.path)
@@ -1131,6 +1295,14 @@ class FnTranslator:
             if not isinstance(expected, TSeq):
                 self.err("`Vec::new()` without a declared element type", e)
             return "[]", expected
+        if e.path == ["Vec", "with_capacity"] and len(e.args) == 1:
+            # genfm: capacity is a hint; the argument is evaluated (it may panic), the vector is empty
+            if not isinstance(expected, TSeq):
+                self.err("`Vec::with_capacity(..)` without a declared element type", e)
+            self.expr(e.args[0], code, TInt("usize"))
+            return "[]", expected
+        if len(e.path) == 2 and e.path[0] in self.unit.get("enums", {}):
+            return self.enum_ctor(e, e.path, e.args, code)
         if len(e.path) == 1 and e.path[0] in self.calls:
             f = self.calls[e.path[0]]
             if len(f["args"]) != len(e.args):
@@ -1209,6 +1381,8 @@ class FnTranslator:
             return self.for_(s, code)
         if k == "return":
             self.err("`return` is only translated as the last statement of the function body", s)
+        if k == "break":
+            self.err("`break` is only translated as the last statement of `if c { …; break; }` directly in a `for` body", s)
         self.err("statement `%s`" % k, s)
 
     def declared_type(self, name, ann, node):
@@ -1319,6 +1493,31 @@ class FnTranslator:
                     self.err("`assert_eq!` with format arguments", e)
             code.bind("_", ("call", "Rs.assert %s" % atom(c)))
             return
+        if e.kind == "mcall" and e.name == "push" and len(e.args) == 1 and e.recv.kind == "index" \
+                and e.recv.base.kind in ("var", "field") and e.recv.idx.kind != "range":
+            # genfm: `vv[i].push(e)` on a vector of vectors: read the row, write it back one element longer
+            root = self._lhs_root(e.recv)
+            v = self.lookup(root, e)
+            if not (isinstance(v.ty, TSeq) and isinstance(v.ty.elem, TSeq)):
+                self.err("`v[i].push` on %r" % (v.ty,), e)
+            val, t = self.expr(e.args[0], code, v.ty.elem.elem)
+            if t != v.ty.elem.elem:
+                self.err("`.push` of %r onto a row of %r" % (t, v.ty), e)
+            i, it = self.expr(e.recv.idx, code, TInt("usize"))
+            if it != TInt("usize"):
+                self.err("index of type %r" % (it,), e.recv.idx)
+            row = self.tmp()
+            code.bind(row, ("call", "Rs.idx %s %s" % (atom(v.lean), atom(i))))
+            code.bind(v.lean, ("call", "Rs.setIdx %s %s (%s ++ [%s])" % (atom(v.lean), atom(i), row, val)))
+            return
+        if e.kind == "mcall" and e.name == "reserve" and len(e.args) == 1:
+            # genfm: `v.reserve(n)` / `vv[i].reserve(n)`: no visible effect; the receiver's index and the argument
+            # are evaluated (both may panic)
+            r, t = self.expr(e.recv, code)
+            if not isinstance(t, TSeq):
+                self.err("`.reserve` on %r" % (t,), e)
+            self.expr(e.args[0], code, TInt("usize"))
+            return
         if e.kind == "mcall" and e.name == "push" and len(e.args) == 1:
             root = self._lhs_root(e.recv)
             v = self.lookup(root, e)
@@ -1350,9 +1549,7 @@ class FnTranslator:
 
     def if_stmt(self, e, code):
         vs = self.outer_vars(self.assigned(e), e)
-        c, ct = self.expr(e.cond, code, TBool())
-        if not isinstance(ct, TBool):
-            self.err("condition of type %r" % (ct,), e.cond)
+        c, bound = self.cond(e.cond, code)
         saved_tail = self.tail_expected
         self.tail_expected = None
         subs = []
@@ -1363,6 +1560,15 @@ class FnTranslator:
                     self.err("value of the `if` branch is discarded", b.tail)
                 if b.tail is not None:
                     b = N("block", b.pos, stmts=b.stmts + [N("ifs", b.tail.pos, e=b.tail)], tail=None)
+                if b is e.then and bound:
+                    self.scopes.append(dict((v.rust, v) for v in bound))
+                    try:
+                        self.block(b, sub, False)
+                    finally:
+                        self.scopes.pop()
+                    sub.final = ("pure", tuple_val([v.lean for v in vs]))
+                    subs.append(sub)
+                    continue
                 self.block(b, sub, False)
             sub.final = ("pure", tuple_val([v.lean for v in vs]))
             subs.append(sub)
@@ -1575,11 +1781,33 @@ class FnTranslator:
             lvs.append(self.declare(nm, t, s, mutable=False, ref_elem=ref, nested_ok=True))
         self.loop_depth += 1
         acc = None
+        brk = None
         try:
             body = Code()
-            self.block(self.unit_block(s.body), body, False)
+            if self.has_kind(s.body, "break"):
+                # genfm: `if c { …; break; }` directly in the body: the state gets a flag `brk`; once it is set the
+                # remaining elements leave the state unchanged
+                if it_mut:
+                    self.err("`break` in an `iter_mut()` loop", s)
+                brk = self.fresh_lean("brk")
+                inner = Code()
+                self.scopes.append({})
+                try:
+                    self.loop_seq(self.unit_block(s.body).stmts, inner, [v.lean for v in state], brk)
+                finally:
+                    self.scopes.pop()
+                skip = Code()
+                skip.final = ("pure", tuple_val([v.lean for v in state] + [brk]))
+                wrapper = Code()
+                wrapper.final = ("if", brk, skip, inner)
+                body = wrapper
+            else:
+                self.block(self.unit_block(s.body), body, False)
             st_names = [v.lean for v in state]
-            if it_mut:
+            if brk is not None:
+                st_names_in = st_names + [brk]
+                st_tys = [v.ty for v in state] + [TBool()]
+            elif it_mut:
                 acc = seq_var.lean + "'"
                 body.final = ("pure", tuple_val(st_names + ["%s ++ [%s]" % (acc, lvs[0].lean)]))
                 st_names_in = st_names + [acc]
@@ -1598,9 +1826,32 @@ class FnTranslator:
                  "  | %s, %s => do" % (tuple_pat(st_names_in), tuple_pat([v.lean for v in lvs]))]
         emit_code(body, 4, lines)
         self.helpers.append("\n".join(lines))
-        init = tuple_val([v.lean for v in state] + (["[]"] if it_mut else []))
-        out_pat = tuple_pat([v.lean for v in state] + ([seq_var.lean] if it_mut else []))
+        init = tuple_val([v.lean for v in state] + (["[]"] if it_mut else []) + (["false"] if brk is not None else []))
+        out_pat = tuple_pat([v.lean for v in state] + ([seq_var.lean] if it_mut else []) + ([brk] if brk is not None else []))
         code.bind(out_pat, ("call", "%s.foldlM %s %s" % (atom(lst), atom(name + self.abs_args() + "".join(" " + v.lean for v in caps)), init)))
+
+    def loop_seq(self, stmts, code, st_names, brk):
+        """genfm: the statements of a `for` body that contains `break`: sets `code.final`"""
+        for idx, st in enumerate(stmts):
+            if st.kind == "ifs" and st.e.els is None and st.e.then.tail is None and st.e.then.stmts \
+                    and st.e.then.stmts[-1].kind == "break" and not self.has_kind(st.e.then.stmts[:-1], "break"):
+                c, bound = self.cond(st.e.cond, code)
+                th = Code()
+                self.scopes.append(dict((v.rust, v) for v in bound))
+                try:
+                    for s2 in st.e.then.stmts[:-1]:
+                        self.stmt(s2, th, False)
+                finally:
+                    self.scopes.pop()
+                th.final = ("pure", tuple_val(st_names + ["true"]))
+                el = Code()
+                self.loop_seq(stmts[idx + 1:], el, st_names, brk)
+                code.final = ("if", c, th, el)
+                return
+            if self.has_kind(st, "break"):
+                self.err("`break` is only translated as the last statement of `if c { …; break; }` directly in a `for` body", st)
+            self.stmt(st, code, False)
+        code.final = ("pure", tuple_val(st_names + ["false"]))
 
     # ---------------------------------------------------------------- the function
     def translate(self, toks):
@@ -1642,7 +1893,7 @@ class FnTranslator:
         # surplus expressions are unused), the equality theorem decides.  More loops than expressions was an error above.
         return self.helpers, "\n".join(lines), [v for v in ret_fields], None
 
-    def seq(self, stmts, tail_node, code, where):
+    def seq(self, stmts, tail_node, code, where, cont=None):
         """the statements of the function body (or of the rest of it after an early `return`): sets `code.final`,
         returns the types of the returned tuple.  An early return `if c { …; return e; }` at this level becomes
         `if c then do …; pure e else do <rest of the function>`; a `return` anywhere else (in a loop, in a nested `if`
@@ -1653,7 +1904,8 @@ class FnTranslator:
                     self.err("statements after `return`", st)
                 return self.finish(st.e, code, st)
             if st.kind == "ifs" and st.e.els is None and st.e.then.tail is None and st.e.then.stmts \
-                    and st.e.then.stmts[-1].kind == "return":
+                    and st.e.then.stmts[-1].kind == "return" and cont is None and st.e.cond.kind != "somepat" \
+                    and not any(self.has_kind(x, "return") for x in st.e.then.stmts[:-1]):
                 e = st.e
                 c, ct = self.expr(e.cond, code, TBool())
                 if not isinstance(ct, TBool):
@@ -1668,8 +1920,50 @@ class FnTranslator:
                     self.err("early `return` of type %r, the function returns %r" % (tys1, tys2), st)
                 code.final = ("if", c, th, el)
                 return tys2
+            if st.kind == "ifs" and self.has_kind(st.e, "return"):
+                # genfm: a `return` nested anywhere below this `if` (not in loops): both branches are continued with the
+                # rest of the function (the continuation is translated once per branch that can fall through)
+                e = st.e
+                rest = (stmts[idx + 1:], tail_node, where, cont, len(self.scopes))
+                c, bound = self.cond(e.cond, code)
+                th = Code()
+                self.scopes.append(dict((v.rust, v) for v in bound))
+                try:
+                    tys1 = self.seq_block(e.then, th, rest)
+                finally:
+                    self.scopes.pop()
+                el = Code()
+                tys2 = self.run_cont(rest, el) if e.els is None else self.seq_block(e.els, el, rest)
+                if tys1 != tys2:
+                    self.err("early `return` of type %r, the function returns %r" % (tys1, tys2), st)
+                code.final = ("if", c, th, el)
+                return tys2
             self.stmt(st, code, False)
+        if cont is not None and tail_node is None:
+            return self.run_cont(cont, code)
         return self.finish(tail_node, code, where)
+
+    def seq_block(self, b, code, rest):
+        """genfm: a branch block of an `if` that contains a `return`, continued with `rest`"""
+        stmts, tail = list(b.stmts), b.tail
+        if tail is not None and tail.kind == "if":
+            stmts, tail = stmts + [N("ifs", tail.pos, e=tail)], None
+        if tail is not None:
+            self.err("value of the `if` branch is discarded", tail)
+        self.scopes.append({})
+        try:
+            return self.seq(stmts, None, code, b, rest)
+        finally:
+            self.scopes.pop()
+
+    def run_cont(self, rest, code):
+        stmts, tail_node, where, cont, depth = rest
+        saved = self.scopes
+        self.scopes = self.scopes[:depth] + [{}]
+        try:
+            return self.seq(stmts, tail_node, code, where, cont)
+        finally:
+            self.scopes = saved
 
     def finish(self, e, code, where):
         ret, ret_fields = self.ret, self.ret_fields
@@ -1749,6 +2043,19 @@ def header_regex(header):
     return r"(?<![\w])" + "".join(parts) + r"\s*\{"
 
 
+def tokens_regex(text):
+    """genfm: Rust text → regex matching the same token sequence with arbitrary white space between tokens"""
+    toks = [t.text for t in tokenize(text, 0)[:-1]]
+    parts = []
+    for i, t in enumerate(toks):
+        parts.append(re.escape(t))
+        if i + 1 < len(toks):
+            a, b = t[-1], toks[i + 1][0]
+            both_word = (a.isalnum() or a == "_") and (b.isalnum() or b == "_")
+            parts.append(r"\s+" if both_word else r"\s*")
+    return r"(?<![\w])" + "".join(parts)
+
+
 def translate_unit(src, unit, fail):
     """src: gen_tables.Src of unit['file']; returns (lean text, snippets dict).  Calls `fail(msg)` (which exits) on
     anything outside the subset."""
@@ -1765,7 +2072,7 @@ def translate_unit(src, unit, fail):
         start = src.code.find("{", ms[0].end() - 1) + 1
         snippets[f["name"]] = ms[0].group(0)[:-1].strip() + " {" + body + "}"
         try:
-            toks = tokenize(body, start)
+            toks = apply_rewrites(tokenize(body, start), list(unit.get("rewrites", [])) + list(f.get("rewrites", [])))
             tr = FnTranslator(unit, f, src, body, start)
             helpers, main, ret_fields, tail = tr.translate(toks)
         except Unsupported as u:
@@ -1774,7 +2081,13 @@ def translate_unit(src, unit, fail):
                  "longer be regenerated)" % (where, what, u.msg, f.get("theorem", "")))
         out_fns.append((f, line, body, helpers, main))
     name = unit["name"]
-    txt = ["import RbV.Basic.RsSem",
+    for item in unit.get("pinned_items", []):
+        # genfm: type declarations the spec relies on (enum variants, struct field order) must still read like this
+        n_found = len(re.findall(tokens_regex(item), src.code))
+        if n_found != 1:
+            fail("%s: expected exactly one item `%s`, found %d (the translation spec in tools/rs2lean.py pins it)"
+                 % (rel, " ".join(item.split())[:120], n_found))
+    txt = ["import RbV.Basic.RsSem"] + ["import " + m for m in unit.get("imports", [])] + [
            "/-! GENERATED by tools/rs2lean.py (tools/gen_tables.py, %s) — do not edit." % unit["props"],
            "Translation of the *text* of the following functions of `%s` (comments blanked) into Lean, regenerated from" % rel,
            "the source tree on every `./check`.  Semantics of the operations: `RbV/Basic/RsSem.lean` (`Res.panic` = the Rust",
@@ -1797,6 +2110,15 @@ def translate_unit(src, unit, fail):
     if gens:
         txt.append("variable " + " ".join("{%s : Type}" % g for g in gens))
     txt.append("")
+    for en, ed in unit.get("enums", {}).items():
+        # genfm: enums of the spec as Lean inductives (constructor names as in Rust)
+        tr0 = FnTranslator(unit, unit["functions"][0], src, "", 0)
+        txt.append("/-- `enum %s` -/" % en)
+        txt.append("inductive %s where" % en)
+        for vn, vargs in ed["variants"]:
+            txt.append("  | %s%s" % (vn, "".join(" (a%d : %s)" % (i, tr0.ty_of_text(a).lean()) for i, a in enumerate(vargs))))
+        txt.append("  deriving Repr, DecidableEq")
+        txt.append("")
     for f, line, body, helpers, main in out_fns:
         for h in helpers:
             txt.append(h)
@@ -1806,6 +2128,31 @@ def translate_unit(src, unit, fail):
         txt.append("")
     txt.append("end RbV.Gen.%s" % name)
     return "\n".join(txt) + "\n", snippets
+
+
+def apply_rewrites(toks, rewrites):
+    """genfm: spec-level rewrites `(pattern text, replacement text)` on the token sequence of a function body, applied
+    before parsing.  They name constructs outside the subset (a method chain on an opaque value, a turbofish, a closure
+    argument) as calls of abstract functions declared in the spec; every rewrite is part of the trusted reading of the
+    text and is listed in docs/notes/GEN.md.  A string literal in the pattern matches any string literal.  A match
+    directly after `.` or `::` is not rewritten (it would be a different expression)."""
+    for pat_text, rep_text in rewrites:
+        pat = tokenize(pat_text, 0)[:-1]
+        rep_t = tokenize(rep_text, 0)[:-1]
+        out, i = [], 0
+        while i < len(toks):
+            ok = i + len(pat) <= len(toks) and all(
+                toks[i + j].kind == q.kind and (q.kind == "str" or toks[i + j].text == q.text) for j, q in enumerate(pat))
+            if ok and out and out[-1].kind == "op" and out[-1].text in (".", "::"):
+                ok = False
+            if ok:
+                out += [Tok(q.kind, q.text, toks[i].pos) for q in rep_t]
+                i += len(pat)
+            else:
+                out.append(toks[i])
+                i += 1
+        toks = out
+    return toks
 
 
 def dedent(body):
@@ -1902,6 +2249,34 @@ unit(name="SrcPrescan", props="property C04", file="src/utils/mod.rs",
                      abstract_fns={"op": dict(lean="op", args=["T", "T"], ret="T")},
                      params=[("a", "&mut [T]"), ("neutral", "T")], ret=None,
                      theorem="RbV.Thm.GenSrcPrescan.prescan_eq_model")])
+
+
+# ---- genfm: the FM-index chain (C04, C05).  `alphabet: &Alphabet` is an opaque value (Lean type variable `Alph`); what the
+# code asks of it is named by the rewrites below and passed as abstract functions (their assumed meaning is a hypothesis of
+# the equality theorems: docs/notes/GEN.md, "Translated function bodies", trusted base)
+ALPH_REWRITES = [("alphabet.max_symbol()", "alphabet_max_symbol(alphabet)"),
+                 ("alphabet.symbols.iter().collect::<Vec<usize>>()", "alphabet_symbols(alphabet)"),
+                 ('alphabet.is_word(b"$")', "alphabet_is_word_dollar(alphabet)")]
+ALPH_ABS = {"alphabet_max_symbol": dict(lean="maxSymbol", args=["&Alphabet"], ret="Option<u8>"),
+            "alphabet_symbols": dict(lean="symbols", args=["&Alphabet"], ret="Vec<usize>"),
+            "alphabet_is_word_dollar": dict(lean="isWordDollar", args=["&Alphabet"], ret="bool")}
+
+unit(name="SrcOcc", props="properties C04, C05", file="src/data_structures/bwt.rs",
+     aliases={"BWTSlice": "[u8]"}, generics={"Alphabet": "Alph"},
+     pinned_items=["pub struct Occ { occ: Vec<Vec<usize>>, k: u32, }"],
+     functions=[dict(name="Occ::new", lean="new", header="pub fn new(bwt: &BWTSlice, k: u32, alphabet: &Alphabet) -> Self",
+                     rewrites=ALPH_REWRITES, abstract_fns=ALPH_ABS,
+                     params=[("bwt", "&BWTSlice"), ("k", "u32"), ("alphabet", "&Alphabet")],
+                     ret="(Vec<Vec<usize>>, u32)", struct_fields={"Occ": ["occ", "k"]},
+                     locals={"alpha": "Vec<usize>", "curr_occ": "Vec<usize>"},
+                     theorem="RbV.Thm.GenSrcOcc.new_eq_model"),
+                dict(name="Occ::get", lean="get", header="pub fn get(&self, bwt: &BWTSlice, r: usize, a: u8) -> usize",
+                     # `bytecount::count(haystack, needle)`: external crate; abstract, instantiated by `List.count` in the theorems
+                     abstract_fns={"bytecount::count": dict(lean="count", args=["&[u8]", "u8"], ret="usize")},
+                     slice_values=True,
+                     self_fields=[("occ", "Vec<Vec<usize>>"), ("k", "u32")],
+                     params=[("bwt", "&BWTSlice"), ("r", "usize"), ("a", "u8")], ret="usize",
+                     theorem="RbV.Thm.GenSrcOcc.get_eq_model")])
 
 
 # ================================================================================================== self-test
